@@ -1,6 +1,8 @@
 import CuqiVerif.Model.Proto
 import CuqiVerif.Model.QMat
 import CuqiVerif.Model.C15
+import CuqiVerif.Model.C15_gauss
+import CuqiVerif.Model.C15_loop
 open CuqiVerif CuqiVerif.Proto CuqiVerif.C15
 
 /-!
@@ -16,6 +18,12 @@ Line protocol of the C15 model (R = Rat).  Arrays: `s:<rat>` (0-d), `v:<vec>` (1
   fwd    <A> <E> <F> <x>                                -> `<vec>`                        (forward on parameters)
   draw   <xmap> <L> <xi>                                -> `<vec>`
   route  <prior> <lik> <model> <ddim> <rdim> <grad> <sqrtprecs> <maxdim> -> `map=<r> ml=<r> sample=<r>`
+  loop   <xmap> <L> <Ns> <callback 0|1> <Nb | -> <stream>  -> `pos=<k> cols=<matrix, row s = draw s> calls=<indices>` | `err:UnboundLocalError`
+         (the sampling loop of _sampleMapCholesky as reached from sample_posterior(Ns, Nb, callback); Model/C15_loop.lean)
+  ghist  <cov|prec|sqrtcov|sqrtprec> <len(mean)> <geometry dim | -> <MAX_DIM_INV> <arr> [set:<arr> | cc]...
+         -> `new=ok|err:<Class>` then per operation `set=ok|err:<Class>` / `cc=<array>|err:<Class>` (exceptions swallowed, as
+            `try/except` around each call), then `gram=<m:…|err:<Class>>` `cov=<array|none>` of the final state
+            (Gaussian(mean, <param>=arr[, geometry=g]), setter assignments, compute_cov(); Model/C15_gauss.lean)
 -/
 
 abbrev Q := Rat
@@ -78,7 +86,60 @@ def fmtSampleRoute : SampleRoute → String
 def parseBool : String → Option Bool
   | "1" => some true | "0" => some false | _ => none
 
+/-- untrusted inverse (Gauss–Jordan of QMat); `certInv` checks its certificate -/
+def invQ : Inverter Q := fun n M => (QMat.inverse (tabM n n M)).map matFn
+
+/-- "cholesky succeeds": Sylvester's criterion, exact -/
+def pdQ : PDTest Q := fun n M => (List.range n).all fun k => decide (QMat.det (tabM (k + 1) (k + 1) M) > 0)
+
+def parseGParam : String → Option GParam
+  | "cov" => some .cov | "prec" => some .prec | "sqrtcov" => some .sqrtcov | "sqrtprec" => some .sqrtprec | _ => none
+
+def fmtGram : Except GErr (SqMat Q) → String
+  | .ok (d, G) => "m:" ++ fmtMat (tabM d d G)
+  | .error e => "err:" ++ e.toString
+
+def fmtCovOpt : Option (NArr Q) → String
+  | some a => fmtArr a
+  | none => "none"
+
+def parseGOp (o : String) : Option (GOp Q) :=
+  if o = "cc" then some .computeCov
+  else if o.startsWith "set:" then (parseArr (o.drop 4).toString).map GOp.setMain
+  else none
+
+/-- run a history with swallowed exceptions, logging each operation's outcome -/
+def ghistLog (maxd : Nat) : GState Q → List (GOp Q) → List String → GState Q × List String
+  | st, [], acc => (st, acc.reverse)
+  | st, .setMain v :: ops, acc =>
+    let (st', e) := st.setMain invQ pdQ v
+    ghistLog maxd st' ops ((match e with | none => "set=ok" | some e => "set=err:" ++ e.toString) :: acc)
+  | st, .computeCov :: ops, acc =>
+    let (st', r) := st.computeCov invQ maxd
+    ghistLog maxd st' ops ((match r with | .ok a => "cc=" ++ fmtArr a | .error e => "cc=err:" ++ e.toString) :: acc)
+
 def step : List String → String
+  | ["loop", xm, l, ns, cb, nb, st] =>
+    let nb? : Option (Option Nat) := if nb = "-" then some none else nb.toNat?.map some
+    match parseVec xm, parseMatFn l, ns.toNat?, parseBool cb, nb?, parseVec st with
+    | some xm, some (r, c, L), some ns, some cb, some nb, some st =>
+      if r ≠ xm.length ∨ r ≠ c ∨ st.length < ns * r then "bad-op" else
+      match sampleDirectLoop r (vecFn xm) L (vecFn st) cb ns nb with
+      | .error _ => "err:UnboundLocalError"
+      | .ok res =>
+        let cols := res.cols.map (tabV r)
+        s!"pos={res.pos} cols={fmtMat cols} calls={fmtNatList (res.calls.map (·.1))}"
+    | _, _, _, _, _, _ => "bad-op"
+  | "ghist" :: ps :: ml :: geom :: maxd :: a0 :: ops =>
+    let geom? : Option (Option Nat) := if geom = "-" then some none else geom.toNat?.map some
+    match parseGParam ps, ml.toNat?, geom?, maxd.toNat?, parseArr a0, ops.mapM parseGOp with
+    | some p, some ml, some geom, some maxd, some v, some ops =>
+      match construct invQ pdQ p ml geom v with
+      | .error e => "new=err:" ++ e.toString
+      | .ok st =>
+        let (stf, log) := ghistLog maxd st ops []
+        " ".intercalate (["new=ok"] ++ log ++ ["gram=" ++ fmtGram stf.gram, "cov=" ++ fmtCovOpt stf.cov, s!"dim={stf.dim}"])
+    | _, _, _, _, _, _ => "bad-op"
   | ["map", a, rd, dd, ce, cx, x0, b] =>
     match parseArr a, rd.toNat?, dd.toNat?, parseCov ce, parseCov cx, parseArr x0, parseArr b with
     | some A, some rd, some dd, some ce, some cx, some x0, some b => fmtRes (mapDirect slvQ A rd dd ce cx x0 b)
